@@ -183,3 +183,11 @@ package td
 //@   loop 1 invariant step: (a == old(a) && b == old(b)) || (0 < a && a <= old(b) && 0 <= b && b < a)
 //@   loop 1 invariant pos:  a > 0 && b >= 0
 //@ end
+
+//@ func SortBinds
+//@   requires nn: forall k int :: 0 <= k && k < len(bs) ==> bs[k] != nil && bs[k].Name != ""
+//@   modifies bs[*]
+//@   ensures sorted: forall i int, j int :: 0 <= i && i < j && j < len(bs) ==> bs[i].Port <= bs[j].Port
+//@   ensures named:  forall k int :: 0 <= k && k < len(bs) ==> bs[k] != nil && bs[k].Name != ""
+//@   ensures badstrict: forall i int, j int :: 0 <= i && i < j && j < len(bs) ==> bs[i].Port < bs[j].Port
+//@ end
